@@ -15,7 +15,7 @@ use clvmr::allocator::{Allocator, NodePtr, SExp};
 
 // ---- opcode whitelist ------------------------------------------------------------------
 
-fn known_one_byte(x: u8) -> bool {
+pub fn known_one_byte(x: u8) -> bool {
     x == 1 || (x >= 43 && x <= 52) || (x >= 60 && x <= 67) || (x >= 70 && x <= 76) || (x >= 80 && x <= 87) || x == 90
 }
 
@@ -134,8 +134,8 @@ pub fn build_args(a: &mut Allocator, menu: &[NodePtr], maxn: usize) -> Args {
     Args { n, arg, pick, term_nil, list: node }
 }
 
-const STRICT: u32 = 0x8_0000;
-const NO_UNKNOWN: u32 = 0x2_0000;
+pub const STRICT: u32 = 0x8_0000;
+pub const NO_UNKNOWN: u32 = 0x2_0000;
 
 /// menu entry description known to the spec
 #[derive(Clone, Copy)]
@@ -146,18 +146,18 @@ pub struct Ent {
     pub bytes: [u8; 10],
 }
 
-fn ent_atom(len: usize) -> Ent {
+pub fn ent_atom(len: usize) -> Ent {
     Ent { is_pair: false, len, bytes: [0; 10] }
 }
 
 /// "exactly `want` arguments and a nil terminator" (STRICT_ARGS_COUNT)
-fn strict_ok(args: &Args, want: usize) -> bool {
+pub fn strict_ok(args: &Args, want: usize) -> bool {
     args.n == want && args.term_nil
 }
 
 // ---- single 32-byte hash argument -----------------------------------------------------------
 
-fn hash_menu(a: &mut Allocator) -> ([NodePtr; 4], [Ent; 4]) {
+pub fn hash_menu(a: &mut Allocator) -> ([NodePtr; 4], [Ent; 4]) {
     let n31 = a.new_atom(&[0x31; 31]).unwrap();
     let b32: [u8; 32] = kani::any();
     let n32 = a.new_atom(&b32).unwrap();
@@ -210,7 +210,7 @@ harness!(c01_args_assert_my_puzzlehash, 40, { one_hash(72, ErrorCode::AssertMyPu
 
 // ---- single message argument (<= 1024 bytes) ---------------------------------------------------
 
-fn msg_menu(a: &mut Allocator) -> ([NodePtr; 5], [Ent; 5]) {
+pub fn msg_menu(a: &mut Allocator) -> ([NodePtr; 5], [Ent; 5]) {
     let n0 = NodePtr::NIL;
     let b3: [u8; 3] = kani::any();
     let n3 = a.new_atom(&b3).unwrap();
@@ -378,7 +378,7 @@ int_insts!(c01_args_assert_before_height_absolute, c01t_args_assert_before_heigh
 
 // ---- AGG_SIG_*: public key (48 bytes) and message (<= 1024 bytes) ---------------------------------
 
-fn aggsig_menu(a: &mut Allocator) -> ([NodePtr; 7], [Ent; 7]) {
+pub fn aggsig_menu(a: &mut Allocator) -> ([NodePtr; 7], [Ent; 7]) {
     let k47 = a.new_atom(&[0x47; 47]).unwrap();
     let kb: [u8; 48] = kani::any();
     let k48 = a.new_atom(&kb).unwrap();
